@@ -1,5 +1,7 @@
 TR = "internal/tracer"
 H = ["tracer/c16_test.go", "tracer/c16_middleware_test.go", "connectconformance/gateutil_test.go@tracer"]
+# unit c16-conn: the connection-ending family of C15's unit c15-conn (same test function, same harness files)
+H_CONN = ["tracer/c15_common_test.go", "tracer/c15_attr_test.go", "tracer/c15_transp_test.go", "tracer/c15_conn_test.go"]
 
 CHECK = {
     "level": "model_checking",
@@ -34,5 +36,9 @@ CHECK = {
          "shards": {"quick": 8, "thorough": 16}, "budget_s": {"quick": 60, "thorough": 600}},
         {"name": "c16-race", "pkg": TR, "harness": H, "test": "^TestVerifC16Race$", "race": True, "tiers": ["thorough"],
          "shards": {"quick": 8, "thorough": 16}, "budget_s": {"quick": 60, "thorough": 600}},
+        # HTTP/2 connection tracer: every named stream opened on a connection completes its trace exactly once when the
+        # connection goes away (EOF / reset / Close / failing Write, after every frame of two interleaved calls, both sides)
+        {"name": "c16-conn", "pkg": TR, "harness": H_CONN, "test": "^TestVerifC15Conn$", "env": {"VERIF_C15_CONN": "endings"},
+         "shards": {"quick": 16, "thorough": 16}, "budget_s": {"quick": 20, "thorough": 240}},
     ],
 }
